@@ -80,6 +80,9 @@ TRUSTED = [
     "computed by BFS and verified against the real div matrix, every face belongs to a cell, face centres / normals are shared by the two cells of a face, "
     "the divergence theorem holds per cell; floating-point rounding of the real code and of the sparse solve (tolerance 1e-8 relative in the oracle, "
     "1e-10 relative in the correspondence)",
+    "the oracle's linear solve is the harness' own: scipy spsolve of the REAL assembled (A, rhs) after an exact power-of-two symmetric equilibration "
+    "(fluxes scaled by 2^-e, pressures by 2^e, 4^e ~ max|mass|); the unscaled system has condition numbers up to 1e17 for small K and small cells, "
+    "which made an unequilibrated solve lose 8 digits (false alarm, replay seed 9); the solver-independent check A x_exact = rhs is always applied",
     "the divergence theorem on each cell (hypothesis DivThm of the exactness theorems) is proved for explicit simplices in dimension 1, 2, 3 and is checked "
     "numerically on the real grid geometry by the oracle (it is property C19)",
 ]
@@ -406,7 +409,16 @@ def grid_real(case):
             res[name] = {"exc": f"{type(e).__name__}: {e}", "exc_type": type(e).__name__}
             continue
         try:
-            sol = sps.linalg.spsolve(Asys.tocsc(), rhs)
+            # The harness' own solve of the REAL system (A, rhs). The mass block scales like h^(2-d)/|K|, the divergence block is +-1, so
+            # the unscaled matrix can have condition number > 1e16 (replay C18-9: cond 1.1e17, equilibrated 15). Solve the symmetrically
+            # equilibrated system D A D y = D rhs, x = D y, with D = diag(2^-e on faces, 2^e on cells), 4^e ~ max|mass| (powers of two:
+            # the scaling itself is exact). The check "A x_exact - rhs = 0" below does not depend on any solve.
+            nfaces = sd.num_faces
+            amax = float(abs(data[pp.DISCRETIZATION_MATRICES]["flow"][solver.mass_matrix_key]).max())
+            e = int(round(math.log2(amax) / 2)) if amax > 0 and math.isfinite(amax) else 0
+            dvec = np.concatenate([np.full(nfaces, 2.0 ** (-e)), np.full(rhs.size - nfaces, 2.0 ** e)])
+            Dm = sps.diags(dvec)
+            sol = dvec * sps.linalg.spsolve((Dm @ Asys @ Dm).tocsc(), dvec * rhs)
         except Exception:  # singular system
             sol = np.full(rhs.size, np.nan)
         md = data[pp.DISCRETIZATION_MATRICES]["flow"]
